@@ -1099,6 +1099,7 @@ class ScopeChecker:
         self.problems = []
         self.n_refs = 0
         self.n_bindings = {'Let': 0, 'AggLet': 0, 'ScanLet': 0}
+        self.n_if_branches = 0
 
     def promoted(self, env, is_scan, what):
         names = env[2] if is_scan else env[1]
@@ -1121,7 +1122,20 @@ class ScopeChecker:
         if h == 'Ref':
             self.n_refs += 1
             if x[1] not in ev:
-                self.problems.append(('unbound-ref', x[1]))
+                if _BLOCKED + x[1] in ev:
+                    self.problems.append(('binding-hoisted-out-of-conditional-branch', x[1]))
+                else:
+                    self.problems.append(('unbound-ref', x[1]))
+            return
+        if h == 'If':
+            # the renderer declares both branches of If to be blocks (If.renderable_new_block): nothing that is only
+            # needed inside a branch may be evaluated before the condition is known.  Inside a branch a reference to a
+            # lifted binding made outside the branch is therefore a defect (the inlined text evaluates it conditionally).
+            self.ck(x[1], env)
+            inner = frozenset(n for n in ev if not n.startswith('__cse_')) | frozenset(_BLOCKED + n for n in ev if n.startswith('__cse_'))
+            self.n_if_branches += 2
+            self.ck(x[2], (inner, env[1], env[2]))
+            self.ck(x[3], (inner, env[1], env[2]))
             return
         if h in ('I32', 'I64', 'F32', 'F64', 'Str', 'True', 'False', 'NA', 'Void', 'RNGStateLiteral', 'EncodedLiteral', 'Literal', 'TableRange'):
             return
@@ -1217,9 +1231,11 @@ class ScopeChecker:
         raise Unknown('node ' + h)
 
 
+_BLOCKED = '\0outside-branch:'
+
 # nodes without bindings: index of the first child after the head atoms
 GENERIC_NODES = {
-    'Cast': 2, 'IsNA': 1, 'If': 1, 'Coalesce': 1, 'ApplyBinaryPrimOp': 2, 'ApplyUnaryPrimOp': 2, 'ApplyComparisonOp': 2,
+    'Cast': 2, 'IsNA': 1, 'Coalesce': 1, 'ApplyBinaryPrimOp': 2, 'ApplyUnaryPrimOp': 2, 'ApplyComparisonOp': 2,
     'Apply': 5, 'MakeArray': 2, 'ArrayRef': 2, 'ArrayLen': 1, 'ArraySlice': 2, 'ToStream': 2, 'ToArray': 1, 'CastToArray': 1,
     'ToSet': 1, 'ToDict': 1, 'GroupByKey': 1, 'StreamRange': 3, 'StreamIota': 2, 'StreamTake': 1, 'SelectFields': 2,
     'GetField': 2, 'MakeTuple': 2, 'GetTupleElement': 2,
@@ -1288,6 +1304,8 @@ def classify(problem, cse_tree):
         if bs:
             return 'cse/binding-lifted-above-binder'
         return 'cse/unbound-variable'
+    if kind == 'binding-hoisted-out-of-conditional-branch':
+        return 'cse/binding-hoisted-out-of-conditional-branch'
     if kind in ('agg-op-outside-agg-context', 'scan-op-outside-scan-context'):
         return 'cse/aggregation-outside-its-context'
     return 'cse/' + kind
@@ -1317,6 +1335,7 @@ def judge(ctx, final_ir, cse_text, plain_text, sample, phase_tag):
         ctx.seen('plain_ill_scoped_kinds', str(pc.problems[0])[:100])
         return 'invalid'
     ctx.count('refs_checked', cc.n_refs)
+    ctx.count('if_branches_checked', cc.n_if_branches)
     ctx.count('cse_bindings_total', len(re.findall(r'\((?:Let eval|AggLet) __cse_\d+ ', cse_text)))
     ctx.count('value_lets', len(re.findall(r'\(Let eval __cse_\d+ ', cse_text)))
     ctx.count('agg_lets', len(re.findall(r'\(AggLet __cse_\d+ False ', cse_text)))
@@ -1350,12 +1369,21 @@ def judge(ctx, final_ir, cse_text, plain_text, sample, phase_tag):
             ctx.count('unknown_eval')
             ctx.seen('unknown_reasons', 'recursion')
             return 'unknown'
+        except Exception as e:  # a value of the wrong shape reached an operator
+            if tag == 'plain':
+                ctx.count('unknown_eval')
+                ctx.seen('unknown_reasons', 'evaluator: ' + type(e).__name__ + ' ' + str(e)[:60])
+                return 'unknown'
+            res.append(('illtyped', type(e).__name__ + ': ' + str(e)[:120]))
     for k in ev.kinds:
         ctx.seen('node_kinds', k)
     (ps, pv), (cs, cv) = res
     if ps == 'scope':
         ctx.count('plain_ill_scoped')
         return 'invalid'
+    if cs == 'illtyped':
+        ctx.violation('cse/value-differs', f'the inlined text evaluates to {show(_untable(pv))[:160]} but in the CSE text a value of the wrong shape reaches an operator ({cv})', witness)
+        return 'judged'
     if cs == 'scope':
         ctx.violation(classify(cv, cse_tree), f'evaluating the CSE text hits a scoping error {cv}; the inlined text evaluates', dict(witness, problem=list(cv)))
         return 'judged'
@@ -1469,9 +1497,13 @@ def run(ctx):
     from vf.hail_fake_backend import install
 
     backend = install()
+    import linecache
     import sys
 
     sys.setrecursionlimit(20000)
+    # hail records a formatted stack for every error-carrying IR node (BaseIR.save_error_info); the per-frame
+    # os.stat of linecache.checkcache dominates the run time and has no bearing on the IR
+    linecache.checkcache = lambda filename=None: None
 
     def one(i, rng, build, phase_tag):
         try:
